@@ -118,6 +118,8 @@ protected:
 	AspifOutput& startDir(Directive_t r);
 	//! Writes x.
 	AspifOutput& add(int x);
+	//! Writes the unsigned value x (ids are not restricted to the range of int).
+	AspifOutput& add(unsigned x);
 	//! Writes size(lits) followed by the elements in lits.
 	AspifOutput& add(const WeightLitSpan& lits);
 	//! Writes size(lits) followed by the literals in lits.
